@@ -189,6 +189,17 @@ def run(ctx):
         n_plain = len(cfgs)
         # small-amplitude data, light penalty, regimes alike in level: NEGATIVE costs under several clusters at once
         cfgs += tu.concentrated_configs(ctx.rng, 4 if ctx.quick() else 40)
+        # a covariance floor that really zeroes entries, with a LOW switching cost (labels contested): the model that is
+        # scored, the model that is returned and every quantity derived from them (log-determinants) must be the filtered one
+        for j in range(4 if ctx.quick() else 30):
+            fc = tu.gen_config(ctx.rng, joint=False)
+            for k_ in ("dtype", "completion", "flat"):
+                fc.pop(k_, None)
+            fc.update({"N": 2, "W": 2, "K": 2, "regimes": ctx.rng.choice([2, 3]), "beta": ctx.rng.choice([0.5, 1.0]),
+                       "eps": ctx.rng.choice([0.2, 0.3, 0.1]), "lam": ctx.rng.choice([0.0, 0.01, 0.05]), "m": 5,
+                       "limit": ctx.rng.choice([3, 6, 10]), "floor_contested": True})
+            fc["lens"] = [1 + ctx.rng.randint(160, 210)]
+            cfgs.append(fc)
         for i, c in enumerate(cfgs[:n_plain]):
             if i % 3 == 2:
                 # the solver tasks of a round complete OUT OF ORDER (as with a real multi-worker pool); >= 3 clusters so
@@ -298,6 +309,12 @@ def run(ctx):
                             ctx.violation("impl-violation",
                                           f"the returned labelling costs {got_cost} under the returned model; a labelling of cost {opt_cost} exists",
                                           cfg, {"site": "main-loop", "clause": "returned-labelling-optimal"})
+                        rep_cost = float(res.label_assignment_cost)
+                        if abs(rep_cost - got_cost) > 1e-7 * (1 + abs(got_cost)):
+                            ctx.violation("impl-violation",
+                                          f"the reported cost {rep_cost} is not the cost {got_cost} of the returned labelling under the "
+                                          "returned model (means and Markov random fields as returned)",
+                                          cfg, {"site": "main-loop", "clause": "reported-cost-is-returned-model-cost"})
                         ctx.count("returned_labelling_optimality_checked")
                 except np.linalg.LinAlgError:
                     pass
